@@ -604,7 +604,8 @@ def _run_distribute(ctx, case):
                    "raised": repr(exc) if exc else None, "records": records}
     if vol > m:
         ctx.count("distribute_volume_above_max")
-        _chk(ctx, "distribute_refuses_volume_above_max", isinstance(exc, robotools.InvalidOperationError), det)
+        # (the statement names no exception class for this refusal)
+        _chk(ctx, "distribute_refuses_volume_above_max", exc is not None, det)
         _chk(ctx, "refused_distribute_emits_no_R_record", not any(r.startswith("R;") for r in records), det)
         return
     if exc is not None:
